@@ -454,7 +454,12 @@ func parseRealms(lines []string) (realms []Realm, err error) {
 			c--
 			if c == 0 {
 				var r Realm
-				e := r.parseLines(name, lines[start+1:i])
+				var block []string
+				if start+1 < i {
+					// the block has lines between the one that opens it and the one that closes it
+					block = lines[start+1 : i]
+				}
+				e := r.parseLines(name, block)
 				if e != nil {
 					if _, ok := e.(UnsupportedDirective); !ok {
 						err = e
